@@ -3,6 +3,7 @@ package main
 // Contract stubs for the standard library and logging.
 
 import (
+	"regexp"
 	gopath "path"
 	"fmt"
 	"math/big"
@@ -575,10 +576,33 @@ func (e *Engine) registerStdlib() {
 	r("(*sync.RWMutex).RLock", lock(false))
 	r("(*sync.RWMutex).RUnlock", unlock(false))
 
-	// ---- regexp: uninterpreted (bool, error) of both arguments
+	// ---- regexp: the match is an uninterpreted predicate of (pattern, subject). Whether a pattern
+	// compiles is exact for constants; a symbolic pattern is "invalid" exactly when it is one of a
+	// few witnesses that really do not compile -- the code under test cannot tell invalid patterns
+	// apart (it only sees the error), every other invalid pattern behaves like a valid one that does
+	// not match (the predicate may be false), and a counterexample with an invalid pattern replays
+	reInvalid := func(st *State, re *Str) *Term {
+		if cs, ok := re.Const(); ok {
+			_, err := regexp.Compile(cs)
+			return B(err != nil)
+		}
+		var alts []*Term
+		for _, w := range []string{"(", "[", "*", ")", "(?!a)", "\\"} {
+			alts = append(alts, st.sEq(re, constStr(w)))
+		}
+		return Or(alts...)
+	}
 	r("regexp.MatchString", func(c *CallCtx) []Outcome {
 		re, s := c.args[0].(*Str), c.args[1].(*Str)
-		m, bad := c.st.ufStrings("reMatch", re, s)
+		m, _ := c.st.ufStrings("reMatch", re, s)
+		bad := reInvalid(c.st, re)
+		if cr, ok := re.Const(); ok {
+			if cs, ok2 := s.Const(); ok2 {
+				if b, err := regexp.MatchString(cr, cs); err == nil {
+					m = B(b)
+				}
+			}
+		}
 		// invalid pattern => (false, err)
 		a, b := c.e.forkOn(c.st, bad)
 		var outs []Outcome
@@ -587,6 +611,99 @@ func (e *Engine) registerStdlib() {
 		}
 		if b != nil {
 			outs = append(outs, Outcome{st: b, val: TupleV{m, IfaceV{}}})
+		}
+		return outs
+	})
+
+	// compiled patterns: the same uninterpreted (match, invalid) pair, split over Compile and the
+	// method; a nil *Regexp panics like the real one
+	compile := func(c *CallCtx) []Outcome {
+		re := c.args[0].(*Str)
+		bad := reInvalid(c.st, re)
+		a, b := c.e.forkOn(c.st, bad)
+		var outs []Outcome
+		if a != nil {
+			outs = append(outs, Outcome{st: a, val: TupleV{Ptr{}, c.e.newError(a, "regexp")}})
+		}
+		if b != nil {
+			outs = append(outs, Outcome{st: b, val: TupleV{Ptr{obj: b.newObj(OpaqueV{kind: "regexp", data: re})}, IfaceV{}}})
+		}
+		return outs
+	}
+	r("regexp.Compile", compile)
+	r("(*regexp.Regexp).MatchString", func(c *CallCtx) []Outcome {
+		p := c.args[0].(Ptr)
+		if p.IsNil() {
+			return c.panicOut("nil-deref-regexp")
+		}
+		re := c.st.heap.objs[p.obj].(OpaqueV).data.(*Str)
+		m, _ := c.st.ufStrings("reMatch", re, c.args[1].(*Str))
+		return c.ret(m)
+	})
+
+	// ---- sync.Map with string keys: a map guarded by its own lock (accesses are synchronised by
+	// construction, so they are not part of the lockset audit)
+	syncMapOf := func(c *CallCtx) (string, *MapObj) {
+		p := c.args[0].(Ptr)
+		key := "syncmap:" + ptrKey(p)
+		if v, ok := c.st.ghost[key]; ok {
+			return key, c.st.heap.objs[v.(MapV).obj].(*MapObj)
+		}
+		return key, &MapObj{}
+	}
+	strKeyOf := func(v Value) *Str {
+		iv, ok := v.(IfaceV)
+		if !ok {
+			unm("sync.Map key %T", v)
+		}
+		s, ok := iv.v.(*Str)
+		if !ok {
+			unm("sync.Map with a key that is not a string")
+		}
+		return s
+	}
+	r("(*sync.Map).Load", func(c *CallCtx) []Outcome {
+		_, mo := syncMapOf(c)
+		k := strKeyOf(c.args[1])
+		cands := c.e.mapCandidates(c.st, mo, k)
+		conds := make([]*Term, len(cands))
+		for i, cd := range cands {
+			conds[i] = cd.cond
+		}
+		var outs []Outcome
+		for i, s2 := range c.e.forkMany(c.st, conds) {
+			if s2 == nil {
+				continue
+			}
+			if cands[i].index < 0 {
+				outs = append(outs, Outcome{st: s2, val: TupleV{IfaceV{}, tFalse}})
+			} else {
+				outs = append(outs, Outcome{st: s2, val: TupleV{mo.entries[cands[i].index].v, tTrue}})
+			}
+		}
+		return outs
+	})
+	r("(*sync.Map).Store", func(c *CallCtx) []Outcome {
+		key, mo := syncMapOf(c)
+		k := strKeyOf(c.args[1])
+		cands := c.e.mapCandidates(c.st, mo, k)
+		conds := make([]*Term, len(cands))
+		for i, cd := range cands {
+			conds[i] = cd.cond
+		}
+		var outs []Outcome
+		for i, s2 := range c.e.forkMany(c.st, conds) {
+			if s2 == nil {
+				continue
+			}
+			n := &MapObj{entries: append([]MapEntry(nil), mo.entries...)}
+			if cands[i].index < 0 {
+				n.entries = append(n.entries, MapEntry{k: k, v: c.args[2]})
+			} else {
+				n.entries[cands[i].index] = MapEntry{k: n.entries[cands[i].index].k, v: c.args[2]}
+			}
+			s2.ghost[key] = MapV{obj: s2.newObj(n)}
+			outs = append(outs, Outcome{st: s2, val: nil})
 		}
 		return outs
 	})
